@@ -2,7 +2,7 @@
    visitor configurations what the real `duke::read_class_multi` delivered to the harness'
    recording visitors and where the stream stood after every read.  The model reads the same
    bytes with the generated tables. *)
-From FB Require Export C17.Model C17.AttrTable C17.Struct C17.Replay C17.AcceptTable Base.Run.
+From FB Require Export C17.Model C17.AttrTable C17.Struct C17.Replay C17.AcceptTable C17.Values C17.ValuesGen Base.Run.
 
 (* ---------- compact notation for the case files ----------
    Coq parses a numeral of type N through its number notation (slow: ~0.1 ms each), but a
@@ -93,6 +93,10 @@ Definition deferred_slots : list str := [
 (* short constructors used in the case files *)
 Definition K (i : nat) : ev := EAttr (nth i known_names []) false [].   (* a parsed, named attribute *)
 Definition U (name : str) (body : bytes) : ev := EAttr name true body.  (* an attribute delivered as raw bytes *)
+(* a parsed, named attribute with the VALUE the visitor was handed (annotations as element_value trees, AnnotationDefault,
+   Signature, SourceFile, and the attributes that are rows of pool indices: InnerClasses, EnclosingMethod, NestHost, …): the tree flattened as [canon_annotations] / [canon_value] flatten it — strings as a checksum of
+   their modified-UTF-8 bytes, numeric constants as the bits of the narrowed value.  It travels in the payload field. *)
+Definition KV (i : nat) (v : list N) : ev := EAttr (nth i known_names []) false v.
 Definition Fl := EFlags.
 (* the rows of a table as the harness saw them (labels as the bytecode offsets of the instructions they sit on,
    strings as a checksum of their modified-UTF-8 bytes), packed into primitive integers:
@@ -129,6 +133,54 @@ Definition M (es : option (list ev)) : ev := EMethod 0 0 0 0 es.
    the attribute a local-variable row came from becomes its kind, a catch type becomes "is there one" *)
 Definition cksum (bs : bytes) : N := fold_left (fun a b => (a * 31 + b + 1) mod 2147483648) bs 7.
 Definition ck_utf8 (p : pool) (i : N) : N := match pool_utf8 p i with Some u => cksum u | None => 2147483648 end.
+(* every entry of the constant pool with its tag and the bytes after the tag (the second pass the correspondence needs for
+   the numeric constants of element values; the reader model keeps the Utf8 entries only) *)
+Fixpoint read_rawpool (fuel : nat) (count idx : N) (s : bytes) (acc : list (N * (N * bytes))) : list (N * (N * bytes)) :=
+  if count <=? idx then acc else
+  match fuel with
+  | O => acc
+  | S f =>
+    match rd8 s with
+    | Err => acc
+    | Ok (tag, s1) =>
+      if tag =? 1 then
+        match rd16 s1 with
+        | Err => acc
+        | Ok (l, s2) => match takeN s2 l with Err => acc | Ok (u, s3) => read_rawpool f count (idx + 1) s3 ((idx, (tag, u)) :: acc) end
+        end
+      else
+        match pool_entry_size tag with
+        | None => acc
+        | Some (sz, slots) => match takeN s1 sz with Err => acc | Ok (u, s2) => read_rawpool f count (idx + slots) s2 ((idx, (tag, u)) :: acc) end
+        end
+    end
+  end.
+Definition rawpool_at (s : bytes) : list (N * (N * bytes)) :=
+  match skipN s 8 with
+  | Ok s1 => match rd16 s1 with Ok (count, s2) => read_rawpool (S (length s2)) count 1 s2 [] | Err => [] end
+  | Err => []
+  end.
+Definition be (bs : bytes) : N := fold_left (fun a b => a * 256 + b) bs 0.
+Definition NOVAL : N := 18446744073709551616.   (* 2^64: no pool entry of the demanded kind *)
+Definition u16_at (bs : bytes) (k : nat) : N := nth k bs 0 * 256 + nth (S k) bs 0.
+(* the strings a Class / Package (name), NameAndType (name, descriptor) or Utf8 entry designates, as checksums *)
+Definition ref_of (p : pool) (rp : list (N * (N * bytes))) (kind i : N) : list N :=
+  if kind =? 1 then [ck_utf8 p i]
+  else match assocN i rp with
+       | Some (tag, bs) =>
+           if tag =? kind then (if kind =? 12 then [ck_utf8 p (u16_at bs 0); ck_utf8 p (u16_at bs 2)] else [ck_utf8 p (u16_at bs 0)])
+           else [NOVAL]
+       | None => [NOVAL]
+       end.
+Definition resolver_of (p : pool) (rp : list (N * (N * bytes))) : resolver :=
+  mkRs (ck_utf8 p)
+       (fun ptag i => match assocN i rp with Some (tag, bs) => if tag =? ptag then be bs else NOVAL | None => NOVAL end)
+       (ref_of p rp).
+(* the pools of the class at the head of the stream *)
+Record pools := mkPools { pp_utf8 : pool; pp_rs : resolver }.
+Definition value_of (pp : pools) (name : str) (body : bytes) : option (list N) :=
+  attr_value xtable_gen vnames_gen (pp_rs pp) name false body.
+
 Definition LVT : str := [76;111;99;97;108;86;97;114;105;97;98;108;101;84;97;98;108;101].             (* LocalVariableTable *)
 Definition LVTT : str := [76;111;99;97;108;86;97;114;105;97;98;108;101;84;121;112;101;84;97;98;108;101]. (* LocalVariableTypeTable *)
 Definition kind_of (name : str) : N := if str_eqb name LVT then 1 else if str_eqb name LVTT then 2 else 0.
@@ -146,11 +198,12 @@ Definition rows_eqb : list row -> list row -> bool := list_eqb (list_eqb N.eqb).
    access flags, the bytes of bodies that the visitor receives parsed, and which attributes the rows
    of a deferred table were grouped in / a frame came from.  The ROWS of the line-number and
    local-variable tables and of the exception table are compared value by value, in order. *)
-Fixpoint ev_eqb (p : pool) (a b : ev) : bool :=
+Fixpoint ev_eqb (pp : pools) (a b : ev) : bool :=
+  let p := pp_utf8 pp in
   let fix l_eqb (x y : list ev) : bool :=
     match x, y with
     | [], [] => true
-    | e :: x', f :: y' => ev_eqb p e f && l_eqb x' y'
+    | e :: x', f :: y' => ev_eqb pp e f && l_eqb x' y'
     | _, _ => false
     end in
   let o_eqb (x y : option (list ev)) : bool :=
@@ -160,7 +213,13 @@ Fixpoint ev_eqb (p : pool) (a b : ev) : bool :=
     | _, _ => false
     end in
   match a, b with
-  | EAttr n r p, EAttr n' r' p' => str_eqb n n' && Bool.eqb r r' && (if r then str_eqb p p' else true)
+  | EAttr n r body, EAttr n' r' v' =>
+      str_eqb n n' && Bool.eqb r r'
+      && (if r then str_eqb body v'
+          else match v' with
+               | [] => true               (* the harness reports no value for this attribute: compared by name only *)
+               | _ => match value_of pp n body with Some v => str_eqb v v' | None => false end
+               end)
   | EFlags d s, EFlags d' s' => Bool.eqb d d' && Bool.eqb s s'
   | EDeferred x srcs, EDeferred y hs =>
       str_eqb x y && match hs with [] => true | h :: _ => rows_eqb (norm_table p x srcs) (snd h) end
@@ -212,13 +271,27 @@ Definition is_vec (ac : accept_ctx) (e : ev) : option str :=
       end
   | _ => None
   end.
-(* two annotations attributes of the same name extend one Vec: one visible attribute *)
+(* two annotations attributes of the same name extend one Vec: one visible attribute, holding the annotations of both *)
+Fixpoint later_bodies (ac : accept_ctx) (name : str) (es : list ev) : list bytes :=
+  match es with
+  | [] => []
+  | e :: es' =>
+    match e, is_vec ac e with
+    | EAttr _ _ body, Some n => if str_eqb n name then body :: later_bodies ac name es' else later_bodies ac name es'
+    | _, _ => later_bodies ac name es'
+    end
+  end.
 Fixpoint dedup_vec (ac : accept_ctx) (seen : list str) (es : list ev) : list ev :=
   match es with
   | [] => []
   | e :: es' =>
     match is_vec ac e with
-    | Some name => if existsb (str_eqb name) seen then dedup_vec ac seen es' else e :: dedup_vec ac (name :: seen) es'
+    | Some name =>
+        if existsb (str_eqb name) seen then dedup_vec ac seen es'
+        else match e with
+             | EAttr n r body => EAttr n r (fold_left merge (later_bodies ac name es') body)
+             | _ => e
+             end :: dedup_vec ac (name :: seen) es'
     | None => e :: dedup_vec ac seen es'
     end
   end.
@@ -232,8 +305,10 @@ Definition norm (e : ev) : ev :=
   | e => e
   end.
 
-Definition trace_eqb (p : pool) (a b : option (list ev)) : bool := opt_eqb (list_eqb (ev_eqb p)) (option_map (map norm) a) b.
-Definition pool_at (s : bytes) : pool := match read_header s with Ok (h, _) => h_pool h | Err => [] end.
+Definition trace_eqb (pp : pools) (a b : option (list ev)) : bool := opt_eqb (list_eqb (ev_eqb pp)) (option_map (map norm) a) b.
+Definition pool_at (s : bytes) : pools :=
+  let p := match read_header s with Ok (h, _) => h_pool h | Err => [] end in
+  mkPools p (resolver_of p (rawpool_at s)).
 
 (* one configuration: a visitor per successive read, and per read what the implementation
    answered: Ok (trace, stream position after the read) — the list stops after the first Err *)
